@@ -5,7 +5,7 @@ from specs.common import run, ASSUME_COMMON
 SPEC = {
     "runs": [run("e1e5-resource-env", "c18_resource_env", "asan", 2500, 250000, need_lib=True)],
     "floors": {
-        "quick": {"env_strings": 6000,
+        "quick": {"env_strings": 5000,
                   "uint_must_accept": 300, "uint_must_default": 600, "uint_leading_minus_wraps_into_32bit": 100,
                   "dur_must_accept": 300, "dur_must_default": 500, "dur_overflow_digit_runs": 100,
                   "dur_overflow_unit_conversions": 30,
@@ -13,9 +13,9 @@ SPEC = {
                   "string_must_accept": 300, "stale_errno_on_must_accept": 500,
                   "merges": 1500, "merges_with_shared_keys": 800, "merge_schema_both_set": 150,
                   "merge_shared_key_type_changes": 400,
-                  "detect_lists_canonical": 400, "detect_lists_hard_malformed": 300, "detect_lists_repeated_key": 100,
+                  "detect_lists_canonical": 300, "detect_lists_hard_malformed": 300, "detect_lists_repeated_key": 100,
                   "detect_service_name_over_attributes": 150,
-                  "create_children": 35, "create_calls": 200, "create_caller_over_env_keys": 30,
+                  "create_children": 30, "create_calls": 200, "create_caller_over_env_keys": 30,
                   "create_env_over_default_keys": 8, "create_fallback_service_name": 20,
                   "create_calls:process.executable.name-non-string": 8,
                   "provider_spans": 100, "provider_logs": 100, "provider_metric_batches": 100},
